@@ -37,7 +37,15 @@ type normReport struct {
 	NewFuncs  []string `json:"functions_outside_vocabulary,omitempty"`
 	Literals  int      `json:"literalized"`
 	Mono      []string `json:"monomorphised_calls,omitempty"`
+	Renamed   []string `json:"renamed_back,omitempty"`
 	LoadError string   `json:"load_error,omitempty"`
+}
+
+// alwaysInline: small predicate helpers of the vocabulary that are inlined into their callers on
+// every tree (the reference tree included), so that the rules see one canonical form whether or
+// not a maintainer keeps the helper.
+var alwaysInline = map[string]bool{
+	"(*ValidReplayer).shouldGC": true,
 }
 
 func funcKey(pkgPath string, fd *ast.FuncDecl) string {
@@ -97,6 +105,9 @@ func normalizeOverlay(dir, goarch string, overlay map[string][]byte) (map[string
 		cur[k] = v
 	}
 	changed := false
+	if renameBack(dir, goarch, cur, rep) {
+		changed = true
+	}
 	failed := map[string]bool{} // call sites (file:offset of callee name) that could not be inlined
 	for round := 0; round < 40; round++ {
 		rep.Rounds = round + 1
@@ -131,10 +142,12 @@ func normalizeOverlay(dir, goarch string, overlay map[string][]byte) (map[string
 						continue
 					}
 					key := funcKey(p.PkgPath, fd)
-					if knownFuncs[key] {
+					if knownFuncs[key] && !alwaysInline[key] {
 						continue
 					}
-					newNames = append(newNames, key)
+					if !alwaysInline[key] {
+						newNames = append(newNames, key)
+					}
 					if ast.IsExported(fd.Name.Name) {
 						continue
 					}
@@ -352,7 +365,7 @@ func normalizeOverlay(dir, goarch string, overlay map[string][]byte) (map[string
 				var cuts []span
 				for _, d := range f.Decls {
 					fd, ok := d.(*ast.FuncDecl)
-					if !ok || fd.Body == nil || knownFuncs[funcKey(p.PkgPath, fd)] || ast.IsExported(fd.Name.Name) {
+					if !ok || fd.Body == nil || (knownFuncs[funcKey(p.PkgPath, fd)] && !alwaysInline[funcKey(p.PkgPath, fd)]) || ast.IsExported(fd.Name.Name) {
 						continue
 					}
 					obj := p.TypesInfo.Defs[fd.Name]
@@ -591,4 +604,349 @@ func pruneUnusedImports(dir, goarch string, cur map[string][]byte) (map[string][
 		return nil, false
 	}
 	return out, true
+}
+
+// ---------------------------------------------------------------------------
+// rename normalisation
+
+// declaredShapes lists what a package declares, keyed "f:<funcKey>" → signature, "v:<Type>.<field>" →
+// field type, "t:<Type>" → underlying type (non-test files only; types are written relative to the package).
+func declaredShapes(p *packages.Package) map[string]string {
+	out := map[string]string{}
+	if p.PkgPath != modPath && p.PkgPath != parserPath {
+		return out
+	}
+	qual := func(other *types.Package) string {
+		if other == p.Types {
+			return ""
+		}
+		return other.Path()
+	}
+	prefix := ""
+	if p.PkgPath == parserPath {
+		prefix = "parser."
+	}
+	for _, f := range p.Syntax {
+		if strings.HasSuffix(p.Fset.Position(f.Pos()).Filename, "_test.go") {
+			continue
+		}
+		for _, d := range f.Decls {
+			switch x := d.(type) {
+			case *ast.FuncDecl:
+				if obj, ok := p.TypesInfo.Defs[x.Name].(*types.Func); ok {
+					sig := obj.Type().(*types.Signature)
+					out["f:"+funcKey(p.PkgPath, x)] = types.TypeString(types.NewSignatureType(nil, nil, nil, unnamedTuple(sig.Params()), unnamedTuple(sig.Results()), sig.Variadic()), qual)
+				}
+			case *ast.GenDecl:
+				for _, sp := range x.Specs {
+					ts, ok := sp.(*ast.TypeSpec)
+					if !ok {
+						continue
+					}
+					obj, ok := p.TypesInfo.Defs[ts.Name].(*types.TypeName)
+					if !ok {
+						continue
+					}
+					out["t:"+prefix+ts.Name.Name] = looseShape(obj.Type().Underlying(), qual)
+					if st, ok := obj.Type().Underlying().(*types.Struct); ok {
+						for i := 0; i < st.NumFields(); i++ {
+							fld := st.Field(i)
+							if fld.Embedded() {
+								continue
+							}
+							out["v:"+prefix+ts.Name.Name+"."+fld.Name()] = types.TypeString(fld.Type(), qual)
+						}
+					}
+				}
+			}
+		}
+	}
+	return out
+}
+
+// renameBack undoes pure renames of unexported functions, methods, struct fields and types: when a
+// name of the vocabulary is missing from the tree and exactly one declaration outside the vocabulary
+// has the same shape (signature and receiver / owner and field type / underlying type), every
+// identifier denoting it is renamed back in the overlay. A rename does not change behaviour, so the
+// rules (which look several unexported names up by name) see the program they know.
+func renameBack(dir, goarch string, cur map[string][]byte, rep *normReport) bool {
+	any := false
+	for pass := 0; pass < 4; pass++ {
+		if !renameBackPass(dir, goarch, cur, rep) {
+			break
+		}
+		any = true
+	}
+	return any
+}
+
+func renameBackPass(dir, goarch string, cur map[string][]byte, rep *normReport) bool {
+	pkgs, err := loadSyntax(dir, goarch, cur)
+	if err != nil {
+		return false
+	}
+	type edit struct {
+		file string
+		a, b int
+		s    string
+	}
+	var edits []edit
+	for _, p := range pkgs {
+		if p.PkgPath != modPath && p.PkgPath != parserPath {
+			continue
+		}
+		have := declaredShapes(p)
+		prefix := ""
+		if p.PkgPath == parserPath {
+			prefix = "parser."
+		}
+		inPkg := func(key string) bool { return strings.HasPrefix(key, "parser.") == (prefix != "") }
+		// missing vocabulary entries and unknown declarations, by kind
+		type cand struct{ key, shape string }
+		var missing, extra []cand
+		for k, v := range knownSigs {
+			if inPkg(k) && have["f:"+k] == "" {
+				missing = append(missing, cand{"f:" + k, v})
+			}
+		}
+		for k, v := range knownFields {
+			if inPkg(k) && have["v:"+k] == "" {
+				missing = append(missing, cand{"v:" + k, v})
+			}
+		}
+		for k, v := range knownTypes {
+			if inPkg(k) && have["t:"+k] == "" {
+				missing = append(missing, cand{"t:" + k, v})
+			}
+		}
+		for k, v := range have {
+			switch k[0] {
+			case 'f':
+				if _, ok := knownSigs[k[2:]]; !ok {
+					extra = append(extra, cand{k, v})
+				}
+			case 'v':
+				if _, ok := knownFields[k[2:]]; !ok {
+					extra = append(extra, cand{k, v})
+				}
+			case 't':
+				if _, ok := knownTypes[k[2:]]; !ok {
+					extra = append(extra, cand{k, v})
+				}
+			}
+		}
+		if len(missing) == 0 || len(extra) == 0 {
+			continue
+		}
+		// owner of a key: "(*T).m" → "(*T)", "T.f" → "T", plain → ""
+		owner := func(key string) string {
+			k := key[2:]
+			if i := strings.LastIndexByte(k, '.'); i >= 0 && !(prefix != "" && i == len("parser")) {
+				return k[:i]
+			}
+			return ""
+		}
+		base := func(key string) string {
+			k := key[2:]
+			if i := strings.LastIndexByte(k, '.'); i >= 0 {
+				return k[i+1:]
+			}
+			return k
+		}
+		renames := map[string]string{} // extra key → old base name
+		for _, m := range missing {
+			if ast.IsExported(base(m.key)) {
+				continue
+			}
+			var match []cand
+			for _, e := range extra {
+				if e.key[0] == m.key[0] && e.shape == m.shape && owner(e.key) == owner(m.key) && !ast.IsExported(base(e.key)) {
+					match = append(match, e)
+				}
+			}
+			if len(match) != 1 {
+				continue
+			}
+			// the candidate must not match another missing entry as well
+			n := 0
+			for _, m2 := range missing {
+				if m2.key[0] == match[0].key[0] && m2.shape == match[0].shape && owner(m2.key) == owner(match[0].key) {
+					n++
+				}
+			}
+			if n != 1 {
+				continue
+			}
+			renames[match[0].key] = base(m.key)
+		}
+		if len(renames) == 0 {
+			continue
+		}
+		// types first: their names are part of every other key
+		hasType := false
+		for k := range renames {
+			if k[0] == 't' {
+				hasType = true
+			}
+		}
+		if hasType {
+			for k := range renames {
+				if k[0] != 't' {
+					delete(renames, k)
+				}
+			}
+		}
+		// objects to rename
+		objs := map[types.Object]string{}
+		renamedTypes := map[types.Object]string{}
+		for _, f := range p.Syntax {
+			if strings.HasSuffix(p.Fset.Position(f.Pos()).Filename, "_test.go") {
+				continue
+			}
+			for _, d := range f.Decls {
+				switch x := d.(type) {
+				case *ast.FuncDecl:
+					if nn, ok := renames["f:"+funcKey(p.PkgPath, x)]; ok {
+						if x.Recv != nil && methodNameInInterfaces(p.Types, x.Name.Name) {
+							continue
+						}
+						objs[p.TypesInfo.Defs[x.Name]] = nn
+					}
+				case *ast.GenDecl:
+					for _, sp := range x.Specs {
+						ts, ok := sp.(*ast.TypeSpec)
+						if !ok {
+							continue
+						}
+						if nn, ok := renames["t:"+prefix+ts.Name.Name]; ok {
+							objs[p.TypesInfo.Defs[ts.Name]] = nn
+							renamedTypes[p.TypesInfo.Defs[ts.Name]] = nn
+						}
+						if st, ok := ts.Type.(*ast.StructType); ok {
+							for _, fl := range st.Fields.List {
+								for _, nm := range fl.Names {
+									if nn, ok := renames["v:"+prefix+ts.Name.Name+"."+nm.Name]; ok {
+										objs[p.TypesInfo.Defs[nm]] = nn
+									}
+								}
+							}
+						}
+					}
+				}
+			}
+		}
+		for _, f := range p.Syntax {
+			fname := p.Fset.Position(f.Pos()).Filename
+			if strings.HasSuffix(fname, "_test.go") {
+				continue
+			}
+			ast.Inspect(f, func(n ast.Node) bool {
+				id, ok := n.(*ast.Ident)
+				if !ok {
+					return true
+				}
+				obj := p.TypesInfo.Uses[id]
+				if obj == nil {
+					obj = p.TypesInfo.Defs[id]
+				}
+				// fields and methods of instantiated generic types resolve to distinct objects: compare origins
+				if v, ok := obj.(*types.Var); ok {
+					obj = v.Origin()
+					// an embedded field is named after its type
+					if v.Embedded() {
+						t := v.Type()
+						if pt, isP := t.(*types.Pointer); isP {
+							t = pt.Elem()
+						}
+						if n, isN := t.(*types.Named); isN {
+							if nn, ok := renamedTypes[n.Origin().Obj()]; ok {
+								edits = append(edits, edit{fname, p.Fset.Position(id.Pos()).Offset, p.Fset.Position(id.End()).Offset, nn})
+								return true
+							}
+						}
+					}
+				}
+				if fn, ok := obj.(*types.Func); ok {
+					obj = fn.Origin()
+				}
+				if nn, ok := objs[obj]; ok && obj != nil {
+					edits = append(edits, edit{fname, p.Fset.Position(id.Pos()).Offset, p.Fset.Position(id.End()).Offset, nn})
+				}
+				return true
+			})
+		}
+		for k, v := range renames {
+			rep.Renamed = append(rep.Renamed, k[2:]+" -> "+v)
+		}
+	}
+	if len(edits) == 0 {
+		return false
+	}
+	sort.Strings(rep.Renamed)
+	byFile := map[string][]edit{}
+	for _, e := range edits {
+		byFile[e.file] = append(byFile[e.file], e)
+	}
+	next := map[string][]byte{}
+	for fname, es := range byFile {
+		content, err := readMaybeOverlay(fname, cur)
+		if err != nil {
+			return false
+		}
+		sort.Slice(es, func(i, j int) bool { return es[i].a > es[j].a })
+		nb := append([]byte(nil), content...)
+		last := -1
+		for _, e := range es {
+			if e.a == last {
+				continue
+			}
+			last = e.a
+			nb = append(nb[:e.a], append([]byte(e.s), nb[e.b:]...)...)
+		}
+		next[fname] = nb
+	}
+	// accept only if the renamed program still type-checks
+	trial := map[string][]byte{}
+	for k, v := range cur {
+		trial[k] = v
+	}
+	for k, v := range next {
+		trial[k] = v
+	}
+	if _, err := loadSyntax(dir, goarch, trial); err != nil {
+		rep.Skipped = append(rep.Skipped, "rename normalisation abandoned: "+err.Error())
+		rep.Renamed = nil
+		return false
+	}
+	for k, v := range next {
+		cur[k] = v
+	}
+	return true
+}
+
+func unnamedTuple(t *types.Tuple) *types.Tuple {
+	var vs []*types.Var
+	for i := 0; i < t.Len(); i++ {
+		vs = append(vs, types.NewVar(0, nil, "", t.At(i).Type()))
+	}
+	return types.NewTuple(vs...)
+}
+
+// looseShape renders an underlying type with struct field names erased (a renamed type may also have
+// renamed fields; those are matched in a later pass).
+func looseShape(t types.Type, qual types.Qualifier) string {
+	st, ok := t.(*types.Struct)
+	if !ok {
+		return types.TypeString(t, qual)
+	}
+	var parts []string
+	for i := 0; i < st.NumFields(); i++ {
+		f := st.Field(i)
+		if f.Embedded() {
+			parts = append(parts, "embed:"+types.TypeString(f.Type(), qual))
+			continue
+		}
+		parts = append(parts, types.TypeString(f.Type(), qual))
+	}
+	return "struct{" + strings.Join(parts, "; ") + "}"
 }
